@@ -1,9 +1,21 @@
-HOOK_COMMITS = ["345b098"]
+HOOK_COMMITS = ["345b098", "e796886"]
 NOTES = ("Every check rebuilds the harness from /repo's working tree (go build -tags verif), regenerates the extracted "
          "tables, rebuilds and audits the Lean theorems (no sorry/axioms beyond propext, Classical.choice, Quot.sound), "
          "then runs the correspondence between the Lean model driver and the real code. See DESIGN.md.")
 NOT_APPLICABLE = {}
 CHECKS = {
+ "C03": {
+  "text": "Lean theorems over a model of level resolution -> Rego level sets -> BuildReport: severity_is_level (a result carries severity S iff its validation is listed under S, defined and firing), conforms_iff, warnings_dont_affect_conforms, result_key_iff_nonempty, profileName_eq, dateCreated_iff, config_only_touches, undefined_skipped; for all profiles, firing relations and configurations. Tied to the code by random level distributions (duplicates, empty/absent levels, undefined names, names/profile names equal to language keys) x graphs x report configurations through the real ValidateWithConfiguration.",
+  "note": "Trusted: Lean kernel; the model of parseValidationLevel/rule heads/report[level]/BuildReport; OPA set semantics (duplicates collapse).",
+  "technique": "Lean 4 proof over the report model + differential correspondence on report headers",
+  "ref": "DESIGN.md 7/C03",
+ },
+ "C18": {
+  "text": "Lean proves write_exact (with the open flags found in the source, any prior file state ends as exactly the report), stdout_exact, failure_no_stdout, and stale_tail for the flag set of 21a97f4; the flags and print calls are facts regenerated from cmd/ every run. Tied by running the built acv binary over prior file states x subcommands x good/bad inputs against the library output computed in-process.",
+  "note": "Trusted: Lean kernel; os.OpenFile/Create/WriteString semantics as modelled; the read-only prior state exists only in the model (root in the sandbox).",
+  "technique": "Lean 4 proof over a file-state model with regenerated flag facts + differential runs of the built CLI",
+  "ref": "DESIGN.md 7/C18",
+ },
  "C04": {
   "text": "On the control-flow skeleton REGENERATED from the Go sources (pkg/*.go, internal/validator/*.go) every run, Lean proves by kernel evaluation over every outcome of every external step that no validating entry point returns a report when decoding, JSON-LD flattening or indexing fails (data_failure_is_never_a_report, report_only_after_all_stages), and that the 21a97f4 shape (decode error swallowed) would. The skeleton is tied to the code by real runs of a malformed-data corpus through all entry points.",
   "note": "Trusted: Lean kernel; the skeleton translator (extract_pipeline.go; unreadable statements become `opaque` and break theorem no_opaque); which documents encoding/json and json-gold reject is observed (differential), not proved.",
